@@ -23,12 +23,13 @@ structure StrO where
   dur : Option Int := none
   url : Bool := false
   tmpl : Bool := false
+  ip : Bool := false
 
 def parseOracle (obs : Json) : List (String × StrO) :=
   match obs.getObjVal? "oracle" with
   | .ok (.obj kvs) => kvs.toList.map fun (k, v) =>
       (k, { re := optBool v "re", dur := if optBool v "dur" then some (optInt v "ns") else none,
-            url := optBool v "url", tmpl := optBool v "tmpl" })
+            url := optBool v "url", tmpl := optBool v "tmpl", ip := optBool v "ip" })
   | _ => []
 
 /-- the empty string is answered here (Go: `regexp.Compile("")` ok, `ParseDuration("")` error,
@@ -37,7 +38,8 @@ def mkOracle (tbl : List (String × StrO)) : Oracle :=
   let look (s : String) : StrO :=
     if s == "" then { re := true, dur := none, url := true } else (tbl.lookup s).getD {}
   { re := fun s => (look s).re, dur := fun s => (look s).dur, url := fun s => (look s).url,
-    tmpl := fun l r t => ((tbl.lookup ("tmpl|" ++ l ++ "|" ++ r ++ "|" ++ t)).getD {}).tmpl }
+    tmpl := fun l r t => ((tbl.lookup ("tmpl|" ++ l ++ "|" ++ r ++ "|" ++ t)).getD {}).tmpl,
+    ipcidr := fun s => ((tbl.lookup s).getD {}).ip }
 
 def kindsTag (j : J) : List String :=
   (j.aget "filters").map fun f => "kind:" ++ f.sget "kind"
@@ -74,22 +76,86 @@ def explains (guard : String) (c : Crash) : Bool :=
   else if guard.startsWith "ResponseAdaptor." then c.onStack "responseadaptor.(*ResponseAdaptor).Init"
   else if guard == "RequestBuilder.template" || guard == "ResponseBuilder.template" then
     c.onStack "builder.(*Builder).reload"
+  else if guard.startsWith "MQTTProxy.rules" then
+    c.onStack "mqttproxy.getPipelineMap" || (c.onStack "mqttproxy.newBroker" && has c.msg "create pipeline map failed")
   else if has guard ".regex" then c.onStack "regexp.MustCompile"
   else false
 
+/-- What the model says about one case (a Pipeline document, or an object built from such documents). -/
+structure Pred where
+  valid : Bool
+  initOK : Bool
+  handleOK : Bool
+  /-- first failing Init/Inject guard (phase, guard) -/
+  initGuard : Option (String × String)
+  /-- all failing Handle guards -/
+  handleGuards : List String
+  nullElem : Bool
+  tags : List String
+
 /-- sig of a crash: the failing modelled guard that explains the observed site, else the site. -/
-def attributeCrash (o : Oracle) (j : J) (c : Crash) : Bool × String :=
+def attributeCrash (m : Pred) (c : Crash) : Bool × String :=
   let initPhase := c.phase == "Init" || c.phase == "Inject" || c.phase == "Inherit"
   let fallback := (false, "panic:" ++ c.phase ++ ":" ++ c.site)
   if initPhase then
-    match initGuard o j with
+    match m.initGuard with
     | some (p, g) =>
       if (p == c.phase || c.phase == "Inherit") && explains g c then (true, "panic:" ++ p ++ ":" ++ g) else fallback
     | none => fallback
   else
-    match (handleGuards o j).eraseDups.find? (explains · c) with
+    match m.handleGuards.eraseDups.find? (explains · c) with
     | some g => (true, "panic:Handle:" ++ g)
     | none => fallback
+
+/-- the verdict, given the model's predicates and what the harness observed (`accepted`, `crash`, `err`) -/
+def verdict (m : Pred) (obs : Json) : Verdict :=
+  let accepted := optBool obs "accepted"
+  let valid := m.valid
+  let initOK := m.initOK
+  let handleOK := m.handleOK
+  let crash := (obs.getObjVal? "crash").toOption.getD Json.null
+  let crashed := match crash with | .null => false | _ => true
+  let phase := optStr crash "phase"
+  let site := optStr crash "site"
+  let cr : Crash := { phase := phase, site := site, msg := optStr crash "msg",
+                      frames := (getStrList crash "frames").toOption.getD [] }
+  let expected := Json.mkObj [("valid", valid), ("initOK", initOK), ("handleOK", handleOK),
+    ("initGuard", match m.initGuard with | some (p, g) => Json.str (p ++ ":" ++ g) | none => Json.null),
+    ("handleGuards", Json.arr (m.handleGuards.map Json.str).toArray)]
+  let tags := m.tags ++ [if accepted then "accepted" else "rejected"]
+    ++ (if crashed then ["crash:" ++ phase] else [])
+    ++ (if accepted && !initOK then ["hazard:init"] else [])
+    ++ (if accepted && initOK && !handleOK then
+          m.handleGuards.eraseDups.map (fun g => (if crashed && explains g cr then "hazard-hit:" else "hazard-idle:") ++ g) else [])
+  if m.nullElem then
+    -- malformed stream: YAML null in place of an object; accept/reject is not modelled
+    { agree := true, spec := !(accepted && crashed), expected := expected,
+      tags := tags ++ ["null-element"], nontrivial := accepted,
+      sig := if accepted && crashed then
+               (match attributeCrash m cr with
+                | (true, g) => g
+                | (false, g) => if has cr.msg "nil pointer dereference" then "panic:null-element" else g)
+             else "",
+      note := if crashed then optStr crash "msg" ++ " @ " ++ site else "" }
+  else if accepted != valid then
+    -- accept/reject disagreement: the correspondence is broken (and a crash is still a violation)
+    { agree := false, spec := !(accepted && crashed), expected := expected, tags := tags ++ ["valid-mismatch"],
+      sig := if accepted && crashed then (attributeCrash m cr).2 else "",
+      note := "validation " ++ (if accepted then "accepted" else "rejected: " ++ optStr obs "err")
+              ++ " but model valid=" ++ toString valid }
+  else if !accepted then
+    { agree := true, spec := true, expected := expected, tags := tags, nontrivial := false }
+  else
+    if crashed then
+      let (agree0, sig) := attributeCrash m cr
+      -- a Handle crash of a spec whose Init should already have failed is a disagreement
+      let agree := agree0 && (initOK || phase == "Init" || phase == "Inject" || phase == "Inherit")
+      { agree := agree, spec := false, expected := expected, tags := tags, sig := sig,
+        note := optStr crash "msg" ++ " @ " ++ site }
+    else
+      -- no crash: Init/Inject guards are deterministic, so the model must not predict one
+      { agree := initOK, spec := true, expected := expected, tags := tags,
+        note := if initOK then "" else "model predicts an Init/Inject panic, none observed" }
 
 def judge : Judge := liftJudge fun input obs => do
   let specJ ← input.getObjVal? "spec"
@@ -101,57 +167,73 @@ def judge : Judge := liftJudge fun input obs => do
   match obsPanic obs with
   | some m => pure { agree := false, spec := false, sig := "panic:harness", note := m }
   | none =>
-  let accepted := optBool obs "accepted"
-  let valid := pipelineValid o j
-  let initOK := pipelineInitOK o j
-  let handleOK := pipelineHandleOK o j
-  let crash := (obs.getObjVal? "crash").toOption.getD Json.null
-  let crashed := match crash with | .null => false | _ => true
-  let phase := optStr crash "phase"
-  let site := optStr crash "site"
-  let cr : Crash := { phase := phase, site := site, msg := optStr crash "msg",
-                      frames := (getStrList crash "frames").toOption.getD [] }
-  let expected := Json.mkObj [("valid", valid), ("initOK", initOK), ("handleOK", handleOK),
-    ("initGuard", match initGuard o j with | some (p, g) => Json.str (p ++ ":" ++ g) | none => Json.null),
-    ("handleGuards", Json.arr ((handleGuards o j).map Json.str).toArray)]
-  let tags := kindsTag j ++ [if accepted then "accepted" else "rejected"]
-    ++ (if (j.aget "flow").isEmpty then [] else ["flow"])
-    ++ (if (j.aget "resilience").isEmpty then [] else ["resilience"])
-    ++ (if crashed then ["crash:" ++ phase] else [])
-    ++ (if accepted && !initOK then ["hazard:init"] else [])
-    ++ (if accepted && initOK && !handleOK then
-          (handleGuards o j).eraseDups.map (fun g => (if crashed && explains g cr then "hazard-hit:" else "hazard-idle:") ++ g) else [])
-  if hasNullElem 12 j then
-    -- malformed stream: YAML null in place of an object; accept/reject is not modelled
-    pure { agree := true, spec := !(accepted && crashed), expected := expected,
-           tags := tags ++ ["null-element"], nontrivial := accepted,
-           sig := if accepted && crashed then
-                    (match attributeCrash o j cr with
-                     | (true, g) => g
-                     | (false, g) => if has cr.msg "nil pointer dereference" then "panic:null-element" else g)
-                  else "",
-           note := if crashed then optStr crash "msg" ++ " @ " ++ site else "" }
-  else if accepted != valid then
-    -- accept/reject disagreement: the correspondence is broken (and a crash is still a violation)
-    pure { agree := false, spec := !(accepted && crashed), expected := expected, tags := tags ++ ["valid-mismatch"],
-           sig := if accepted && crashed then (attributeCrash o j cr).2 else "",
-           note := "validation " ++ (if accepted then "accepted" else "rejected: " ++ optStr obs "err")
-                   ++ " but model valid=" ++ toString valid }
-  else if !accepted then
-    pure { agree := true, spec := true, expected := expected, tags := tags, nontrivial := false }
-  else
-    if crashed then
-      let (agree0, sig) := attributeCrash o j cr
-      -- a Handle crash of a spec whose Init should already have failed is a disagreement
-      let agree := agree0 && (initOK || phase == "Init" || phase == "Inject" || phase == "Inherit")
-      pure { agree := agree, spec := false, expected := expected, tags := tags, sig := sig,
-             note := optStr crash "msg" ++ " @ " ++ site }
-    else
-      -- no crash: Init/Inject guards are deterministic, so the model must not predict one
-      pure { agree := initOK, spec := true, expected := expected, tags := tags,
-             note := if initOK then "" else "model predicts an Init/Inject panic, none observed" }
+  pure (verdict { valid := pipelineValid o j, initOK := pipelineInitOK o j, handleOK := pipelineHandleOK o j,
+                  initGuard := initGuard o j, handleGuards := handleGuards o j, nullElem := hasNullElem 12 j,
+                  tags := kindsTag j ++ (if (j.aget "flow").isEmpty then [] else ["flow"])
+                    ++ (if (j.aget "resilience").isEmpty then [] else ["resilience"]) } obs)
 
-def judges : List (String × Judge) := [("C13", judge)]
+/-- GlobalFilter object (harness `gf`): the document is `{beforePipeline, afterPipeline}`; a case whose
+main pipeline could not be built is trivial. -/
+def judgeGF : Judge := liftJudge fun input obs => do
+  let specJ ← input.getObjVal? "gf"
+  let j := toJ specJ
+  let o := mkOracle (parseOracle obs)
+  match obs.getObjVal? "accepted" with
+  | .error _ => pure { agree := false, spec := true, note := "harness: " ++ obs.compress, nontrivial := false }
+  | .ok _ =>
+  match obsPanic obs with
+  | some m => pure { agree := false, spec := false, sig := "panic:harness", note := m }
+  | none =>
+  if optStr obs "main" != "ok" then
+    pure { agree := true, spec := true, tags := ["main:" ++ optStr obs "main"], nontrivial := false }
+  else
+  let part (k : String) : List String :=
+    let p := j.get k
+    if !j.has k then [k ++ ":absent"]
+    else [k ++ (if gfActive p then ":instantiated" else ":no-flow")] ++ (kindsTag p).map (fun t => k ++ ":" ++ t)
+  pure (verdict { valid := globalFilterValid o j, initOK := globalFilterInitOK o j,
+                  handleOK := globalFilterHandleOK o j, initGuard := gfInitGuard o j,
+                  handleGuards := gfHandleGuards o j, nullElem := hasNullElem 14 j,
+                  tags := ["object:GlobalFilter"] ++ part "beforePipeline" ++ part "afterPipeline" } obs)
+
+/-- HTTPServer object at mux level (harness `http`). -/
+def judgeHTTP : Judge := liftJudge fun input obs => do
+  let specJ ← input.getObjVal? "spec"
+  let j := toJ specJ
+  let o := mkOracle (parseOracle obs)
+  match obs.getObjVal? "accepted" with
+  | .error _ => pure { agree := false, spec := true, note := "harness: " ++ obs.compress, nontrivial := false }
+  | .ok _ =>
+  match obsPanic obs with
+  | some m => pure { agree := false, spec := false, sig := "panic:harness", note := m }
+  | none =>
+  let paths := (j.aget "rules").flatMap (·.aget "paths")
+  let initOK := httpServerInitOK o j
+  pure (verdict { valid := httpServerValid o j, initOK := initOK, handleOK := true,
+                  initGuard := if initOK then none else some ("Init", "HTTPServer.header.regexp"),
+                  handleGuards := [], nullElem := false,
+                  tags := ["object:HTTPServer", "rules:" ++ toString (j.aget "rules").length]
+                    ++ (if paths.any (fun p => p.sget "rewriteTarget" != "") then ["rewrite"] else [])
+                    ++ (if paths.any (fun p => !(p.aget "headers").isEmpty) then ["headers"] else [])
+                    ++ (if j.has "ipFilter" || paths.any (·.has "ipFilter") then ["ipFilter"] else []) } obs)
+
+/-- MQTTProxy object (harness `mqtt`). -/
+def judgeMQTT : Judge := liftJudge fun input obs => do
+  let specJ ← input.getObjVal? "spec"
+  let j := toJ specJ
+  match obs.getObjVal? "accepted" with
+  | .error _ => pure { agree := false, spec := true, note := "harness: " ++ obs.compress, nontrivial := false }
+  | .ok _ =>
+  match obsPanic obs with
+  | some m => pure { agree := false, spec := false, sig := "panic:harness", note := m }
+  | none =>
+  let g := mqttRuleGuard (j.aget "rules") []
+  pure (verdict { valid := mqttProxyValid j, initOK := mqttProxyInitOK j, handleOK := true,
+                  initGuard := g.map (fun x => ("Init", x)), handleGuards := [], nullElem := false,
+                  tags := ["object:MQTTProxy", "rules:" ++ toString (j.aget "rules").length]
+                    ++ (match g with | some x => ["guard:" ++ x] | none => []) } obs)
+
+def judges : List (String × Judge) := [("C13", judge), ("C13gf", judgeGF), ("C13http", judgeHTTP), ("C13mqtt", judgeMQTT)]
 
 end Driver.C13
 
